@@ -8,6 +8,7 @@ import (
 	"net"
 	"reflect"
 	"sort"
+	"strings"
 	"sync"
 	"testing"
 	"testing/synctest"
@@ -34,7 +35,9 @@ type DocScript struct {
 	RTTs        []int       `json:"rtts"`
 	Enrich      bool        `json:"enrich"`
 	SkipPrivate bool        `json:"skip_private"`
-	DNS         wire.StrMap `json:"dns"` // address string -> behaviour (see dnsAnswer)
+	DNS         wire.StrMap `json:"dns"`       // address string -> behaviour (see dnsAnswer); "a;b": first call a, later calls b; "+<ms>:x": x after a delay
+	Realclock   bool        `json:"realclock"` // run on the real clock (stalled resolvers: the 5 s lookup timeout really elapses)
+	Reprobe     bool        `json:"reprobe"`   // after the pipeline look every scripted address up again and log whether the resolver was asked
 }
 
 func init() { kinds["doc"] = runDoc }
@@ -99,7 +102,12 @@ func keyPaths(prefix string, v any, acc map[string]bool) {
 }
 
 func runDoc(t *testing.T, s *Scenario) (evs []wire.Event) {
-	// in a bubble: the reverse-DNS timeout (5 s) and slow resolvers run on the virtual clock
+	// in a bubble: the reverse-DNS timeout (5 s) and slow resolvers run on the virtual clock; "realclock" documents run outside
+	// (a goroutine parked on a sync.Mutex is not durably blocked: lookups that are serialised by a lock while a resolver stalls
+	// would freeze the virtual clock instead of showing up as a late return)
+	if d, ok := s.Extra["doc"].(map[string]any); ok && d["realclock"] == true {
+		return runDocInner(t, s)
+	}
 	synctest.Test(t, func(t *testing.T) { evs = runDocInner(t, s) })
 	return evs
 }
@@ -120,8 +128,9 @@ func runDocInner(t *testing.T, s *Scenario) []wire.Event {
 	reversedns.LookupAddrFn = func(ctx context.Context, addr string) ([]string, error) {
 		mu.Lock()
 		calls[addr]++
+		n := calls[addr]
 		mu.Unlock()
-		return dnsAnswer(ctx, ds.DNS, addr)
+		return dnsAnswerN(ctx, ds.DNS, addr, n)
 	}
 	defer func() { reversedns.LookupAddrFn = oldLookup }()
 
@@ -161,6 +170,23 @@ func runDocInner(t *testing.T, s *Scenario) []wire.Event {
 			j2, _ = json.Marshal(&back)
 		}
 	}()
+	if ds.Reprobe && panicked == "" {
+		addrs := []string{}
+		for a := range ds.DNS {
+			addrs = append(addrs, a)
+		}
+		sort.Strings(addrs)
+		for _, a := range addrs {
+			mu.Lock()
+			before := calls[a]
+			mu.Unlock()
+			names, err := reversedns.GetReverseDns(a)
+			mu.Lock()
+			after := calls[a]
+			mu.Unlock()
+			w.LogEvent("Got", "op", "reprobe", "key", a, "invoked", after != before, "ok", err == nil, "val", strings.Join(names, ","))
+		}
+	}
 	var tree1, tree2 any
 	json.Unmarshal(j1, &tree1)
 	json.Unmarshal(j2, &tree2)
